@@ -118,6 +118,7 @@ def run(chk):
         rep = [x for x in level1 if not isinstance(x[0], tuple) and x[1] is not None][::41]
         items += list(composites(rep[:4]))
     ITEMS[:] = items
+    import gc; gc.collect(); gc.freeze()  # forked workers then touch (copy) far fewer pages
     with mp.get_context("fork").Pool(chk.jobs) as pool:
         res = pool.map(check, range(len(items)), chunksize=32)
     seen = set()
